@@ -211,6 +211,22 @@ def detached_problems(d, S, X, v, hop):
         if list(c.absolute_path) != ap or list(c.absolute_schema_path) != asp or c.json_path != jp:
             problems.append("detached context error: absolute paths changed once its top-level error was dropped")
             break
+    # an error re-created from another one (create_from: how check_schema turns a ValidationError into a
+    # SchemaError) is the same error: same absolute locations for itself and for what hangs below it
+    for c, ap, asp, jp in kept:
+        try:
+            twin = type(c).create_from(c)
+            below = [(list(k.absolute_path), list(k.absolute_schema_path)) for k in c.context]
+            if list(twin.absolute_path) != ap or list(twin.absolute_schema_path) != asp or twin.json_path != jp:
+                problems.append("create_from: the copy of a context error reports other absolute paths than the original")
+                break
+            if [(list(k.absolute_path), list(k.absolute_schema_path)) for k in twin.context] != below or \
+                    [(list(k.absolute_path), list(k.absolute_schema_path)) for k in c.context] != below:
+                problems.append("create_from: the errors below a copied context error changed their absolute paths")
+                break
+        except Exception as ex:
+            problems.append("create_from raised %s" % type(ex).__name__)
+            break
     del kept
     best = exceptions.best_match(v.iter_errors(X))
     if best is not None:
